@@ -125,6 +125,9 @@ pub fn env_seed() -> u64 {
 }
 
 unsafe fn fill_entropy(buf: *mut u8, len: usize) {
+    if buf.is_null() || len == 0 {
+        return;
+    }
     let mut g = ENTROPY.lock().unwrap_or_else(|e| e.into_inner());
     if g.is_none() {
         *g = Some(super::Rng::derive(env_seed(), "entropy"));
